@@ -430,6 +430,34 @@ def rule_r8(facts, col):
             col.bad("C18.R8", key, body.where(agg[0]), "the ring state wraps at %s but the mapping is created for %s" % (show(cl)[:40], show(ca)[:40]), {})
 
 
+def rule_r9(facts, col, rule_id="C18.R9"):
+    """the fixed mapping goes where the caller asked: in `Map::with_addr` the address handed to mmap() is the pointer
+    parameter itself (casts only) - never a value computed from it.  Rounding a misaligned request to a page boundary moves a
+    MAP_FIXED mapping onto memory the reservation does not cover: it replaces (and the error path then unmaps) a page of
+    whatever lives next to it - another live stream's first page."""
+    n = 0
+    for body in facts.bodies:
+        if body.name != "with_addr" or body.file != "src/circular_buffer.rs":
+            continue
+        for bb, t in body.calls():
+            if t["f"].get("name") != "mmap" or not t["args"]:
+                continue
+            n += 1
+            key = "%s:mmap-addr" % body.q
+            e = peel(body.operand_expr(t["args"][0]), through_try=False)
+            k_ = 0
+            while e is not None and e.k == "cast" and k_ < 6:
+                e = peel(e.a, through_try=False)
+                k_ += 1
+            if e is not None and e.k == "param":
+                col.ok(rule_id, key, body.where(bb), "mmap() is handed the pointer parameter unchanged")
+            else:
+                col.bad(rule_id, key, body.where(bb),
+                        "the address handed to mmap(MAP_FIXED) is computed (%s), not the caller's pointer: a rounded address lies outside "
+                        "the stream's own reservation and the fixed mapping lands on a neighbour's memory" % (show(e)[:60] if e is not None else "?"), {})
+    return n
+
+
 def run(ctx):
     facts = ctx.facts("default")
     ctx.anchor("C18", MAP_ADT in facts.adts and CIRC_ADT in facts.adts, "circular_buffer::{Map,Circ}")
@@ -442,6 +470,8 @@ def run(ctx):
     c01.rule_r2(facts, ctx, rule_id="C18.R7")
     rule_r8(facts, ctx)
     ctx.floor("C18.R8", 2, "Circ::new period + Buffer::new same size")
+    rule_r9(facts, ctx)
+    ctx.floor("C18.R9", 1, "the mmap() call of Map::with_addr")
     from .. import controls
     controls.expect(ctx, "C18.R1", rule_r1, "rogue_mapping", "mmap outside Map")
     controls.expect(ctx, "C18.R6", rule_r6, "rogue_mapping", "MAP_PRIVATE mapping")
